@@ -64,6 +64,8 @@ func C01(c *core.Ctx) {
 		pub("B", "a", 1, 33, p8k), pub("A", "a/b", 1, 17, ""), {Kind: "pub2", Client: "B", Topic: "b/c", QoS: 2, ID: 34, Payload: "nobody"},
 		unsub("A", 14, "a/+"), sub("A", 11, "a/+", 2), unsub("B", 23, "a/b"), {Kind: "cut", Client: "A"},
 		{Kind: "lpub", Topic: "a/b", QoS: 1, Payload: "lp"}, {Kind: "lunsub", Client: "L", Filters: []string{"a/#"}},
+		// retained publishes are forwarded like any other, the empty one that clears the topic included
+		pubr("B", "a/b", 0, 0, "r1"), pubr("B", "a/b", 1, 35, ""),
 		// one UNSUBSCRIBE with several filters, held ones last
 		{Kind: "unsub", Client: "A", ID: 19, Filters: []string{"q/1", "q/2", "q/3", "a/+", "#"}},
 	}
@@ -100,7 +102,58 @@ func C01(c *core.Ctx) {
 			return
 		}
 	}
+	c01framing(c)
+	if c.HasViolation() || c.Expired() {
+		return
+	}
 	c01sched(c)
+}
+
+// c01framing: a publish for every remaining length 5..300 (and around 16383 would
+// be above the packet limit of 16 KiB rings): the length field has boundaries of
+// its own (127/128, multiples of 128) that the framing code of the connection
+// has to get right before the codec sees the packet.
+func c01framing(c *core.Ctx) {
+	var hist []Action
+	hist = append(hist, conn("A", "a", true), conn("B", "b", true), sub("A", 1, "a/b", 1))
+	n := 0
+	flush := func() bool {
+		if len(hist) <= 3 {
+			return true
+		}
+		spec := &HistSpec{Name: "framing", Comps: map[string]bool{"route": true, "stream": true, "closed": true, "acks": true}}
+		r := spec.RunHistory(hist, false)
+		c.Rep.Evaluations++
+		c.Rep.Executions++
+		c.Rep.States++
+		c.Rep.Transitions += int64(r.Steps)
+		if r.Violation != "" {
+			if c.Violate("C01 framing :: "+violClass(r.Violation), core.Replay{Scenario: "framing: publishes with remaining lengths " + hist[3].String() + " ...", Message: r.Violation}) {
+				return false
+			}
+		}
+		hist = hist[:3]
+		return true
+	}
+	for L := 5; L <= 300; L++ {
+		n++
+		if c.NShards > 1 && (L/8)%c.NShards != c.Shard {
+			continue
+		}
+		// QoS 0: remaining length = 2 + len("a/b") + payload; QoS 1: two more for the identifier
+		hist = append(hist, pub("B", "a/b", 0, 0, big(L-5, byte(L))))
+		if L >= 7 {
+			hist = append(hist, pub("B", "a/b", 1, uint16(1000+L), big(L-7, byte(L+1))))
+		}
+		if L%8 == 7 {
+			if !flush() {
+				return
+			}
+		}
+	}
+	flush()
+	c.Rep.Scenarios++
+	c.Rep.Sample(map[string]interface{}{"search": "framing", "remaining_lengths": "5..300"})
 }
 
 // wrapKey adds how often each connection's traffic has wrapped a 16 KiB ring
